@@ -17,8 +17,8 @@ func TailFilesToChan(filenames <-chan string, batchSize, batchBuffer int, reopen
 			wg.Add(1)
 			go func(filename string) {
 				defer func() {
-					wg.Done()
 					out.stopFileReading(filename)
+					wg.Done()
 				}()
 
 				r, err := followreader.New(filename, reopen, poll)
